@@ -12,16 +12,23 @@ use std::task::Poll;
 /// one global logical clock for call/return stamps (taken before invoking / after the reply)
 pub static CLOCK: AtomicU64 = AtomicU64::new(1);
 #[inline] pub fn stamp() -> u64 { CLOCK.fetch_add(1, SeqCst) }
+thread_local! {
+    /// set by a send whose setter was kept suspended (`SendAsyncGated`): the stamp at which the setter was resumed. For the kinds driven that way the
+    /// queue position is taken and the wake-up decided only after the setter completed, so that is when the send "really" starts racing the consumers
+    pub static RESUMED_AT: std::cell::Cell<u64> = const { std::cell::Cell::new(0) };
+}
 
 #[derive(Clone, Copy, PartialEq, Eq, Debug, Hash)]
-pub enum Entry { Send, SendWith, SendAsync, SendAsyncSuspended, Reserve, Derived }
+pub enum Entry { Send, SendWith, SendAsync, SendAsyncSuspended, Reserve, Derived,
+    /// send_with_async whose setter stays suspended until every other thread has finished or parked (SER: `gate_wait`), e.g. until the consumers have drained what was pending and parked
+    SendAsyncGated }
 impl Entry {
     pub fn name(&self) -> &'static str {
         match self { Entry::Send => "send", Entry::SendWith => "send_with", Entry::SendAsync => "send_with_async", Entry::SendAsyncSuspended => "send_with_async(suspended)",
-                     Entry::Reserve => "reserve+try_send_reserved", Entry::Derived => "send_derived" }
+                     Entry::Reserve => "reserve+try_send_reserved", Entry::Derived => "send_derived", Entry::SendAsyncGated => "send_with_async(suspended until everybody else finished or parked)" }
     }
     pub fn from_name(s: &str) -> Option<Entry> {
-        [Entry::Send, Entry::SendWith, Entry::SendAsync, Entry::SendAsyncSuspended, Entry::Reserve, Entry::Derived].into_iter().find(|e| e.name() == s)
+        [Entry::Send, Entry::SendWith, Entry::SendAsync, Entry::SendAsyncSuspended, Entry::Reserve, Entry::Derived, Entry::SendAsyncGated].into_iter().find(|e| e.name() == s)
     }
 }
 
@@ -54,6 +61,21 @@ pub fn send_via(ch: &dyn Chan, entry: Entry, id: u64) -> SendRes {
                         if polls <= 2 { sched::point(); sched::point(); } else { sched::spin() }
                         if polls >= 2 { gate.open() }
                     }
+                }
+            }
+        }
+        Entry::SendAsyncGated => {
+            let gate = Gate::new(false);
+            let mut f = ch.send_with_async(id, gate.clone());
+            let w = noop_waker();
+            match f.poll_once(&w) {
+                Poll::Ready(r) => r,          // (rejected before the setter was awaited, or the kind never awaits)
+                Poll::Pending => {
+                    // the setter is suspended: everybody else runs until finished or parked (SER); free-running: a pause long enough for a consumer to drain and park
+                    if sched::lane() == Some(sched::Lane::Free) { std::thread::sleep(std::time::Duration::from_micros(300)) } else { sched::gate_wait(); }
+                    RESUMED_AT.with(|r| r.set(stamp()));
+                    gate.open();
+                    loop { match f.poll_once(&w) { Poll::Ready(r) => break r, Poll::Pending => sched::spin() } }
                 }
             }
         }
@@ -95,9 +117,11 @@ pub fn producer_body(ch: Arc<dyn Chan>, entry: Entry, ids: Vec<u64>, retries: u3
             let mut attempt = 0;
             loop {
                 let t0 = stamp();
+                RESUMED_AT.with(|r| r.set(0));
                 let r = send_via(&*ch, entry, id);
                 let t1 = stamp();
-                log.calls.lock().unwrap().push((id, t0, t1, r == SendRes::Ok));
+                let resumed = RESUMED_AT.with(|r| r.get());
+                log.calls.lock().unwrap().push((id, if resumed > 0 { resumed } else { t0 }, t1, r == SendRes::Ok));
                 sched::op_done();
                 match r {
                     SendRes::Ok => { log.accepted.lock().unwrap().push(id); break }
